@@ -104,7 +104,7 @@ class Scenario:
         store_init='free', max_parts=1, pay_outcomes=('complete', 'failed'), faults=0, fault_methods=(),
         fault_codes=((-1, 'Rpc'),), write_faults=0, crash=0, timers=True, spurious=False, xpay=False,
         height=None, blocks=0, wait_fail_codes=(204,), deliver_in_order=True, payee_releases=True,
-        rng_free=True, max_total_parts=3, parts_can_fail=True,
+        rng_free=True, max_total_parts=3, parts_can_fail=True, deliver_after_response=False, eager_tasks=False, strict_por=False,
     )
     def __init__(self, c, cfg, monitors=()):
         self.c = c
@@ -267,6 +267,10 @@ class Scenario:
         out = []
         specs = st.roots['specs']
         pending = [s for s in specs if s.idx not in st.roots['delivered']]
+        if pending and cfg['deliver_after_response']:
+            ep = st.roots['epoch']
+            if any((ep, k) not in st.roots.get('decided', {}) and (ep, k) not in st.roots['responses'] for k in st.roots['delivered']):
+                pending = []
         if pending:
             cands = pending[:1] if cfg['deliver_in_order'] else pending
             for s in cands:
@@ -353,15 +357,84 @@ class Scenario:
            and delivery, so when one is enabled only it and the transitions that do touch node state (part
            resolutions, pay progress, other linearisations, crash) are explored."""
         cfg = self.cfg
-        if not cfg['crash']:
+        if cfg['eager_tasks']:
+            # run-to-blocking: every runnable task is polled before the environment moves again.  Environment steps
+            # commute with polls of tasks other than the one they wake, and a woken task reads the node only through
+            # RPC answers fixed at their linearisation, so no answer sequence is lost (DESIGN 3.4).
+            tasks = [t for t in trs if t[0] == 'task']
+            if tasks:
+                return tasks
+        if not cfg['crash'] and not cfg['deliver_after_response']:
             dl = [t for t in trs if t[2].startswith('deliver ')]
             if dl:
                 return dl[:1]
         lins = [t for t in trs if t[2].startswith('lin ')]
         if lins:
-            dep = [t for t in trs if t[0] == 'env' and (t[2].startswith(('lin ', 'part', 'pay#', 'CRASH')))]
-            return dep
+            # only sound while a single task issues RPCs: with two live lifecycles the other one can reach a
+            # conflicting RPC (same datastore key) without this linearisation having happened
+            st = m.st
+            live = [t for t in st.sched.tasks if t.name.startswith('{') and t.status in ('runnable', 'blocked')]
+            # a further lifecycle can still come into being when the table has no entry (the previous one resolved)
+            # and some handler has not registered yet or some HTLC is still to be delivered
+            table_empty = not st.roots['pmx'].cell.v.entries
+            fresh_handlers = [t for t in st.sched.tasks if t.tid in st.roots['task_of'] and t.polls == 0]
+            undelivered = [s for s in st.roots['specs'] if s.idx not in st.roots['delivered']]
+            may_spawn = cfg['strict_por'] and table_empty and (fresh_handlers or undelivered)
+            if len(live) <= 1 and not may_spawn:
+                dep = [t for t in trs if t[0] == 'env' and (t[2].startswith(('lin ', 'part', 'pay#', 'CRASH')))]
+                return dep
         return trs
+
+    # ---- independence relation for sleep sets -------------------------------------------------------
+    _DS = ('datastore', 'listdatastore')
+    _SP = ('listsendpays', 'waitsendpay', 'pay')
+    def _classify(self, m, label):
+        """(kind, owner task, resource, is_write)"""
+        import re as _re
+        mm = _re.match(r'^lin (\w+)#(\d+)$', label)
+        env = m.st.env
+        if mm:
+            c = env.calls[int(mm.group(2))]
+            meth = mm.group(1)
+            res = 'ds' if meth in self._DS else ('sendpays' if meth in self._SP else 'other')
+            return ('lin', c.task, res, meth == 'datastore')
+        mm = _re.match(r'^pay#(\d+) ', label)
+        if mm:
+            return ('lin', env.calls[int(mm.group(1))].task, 'sendpays', True)
+        if label.startswith('part'):
+            return ('part', None, 'sendpays', True)
+        mm = _re.match(r'^poll .*#(\d+)$', label)
+        if mm:
+            return ('poll', int(mm.group(1)), 'table', True)
+        if label.startswith('fire '):
+            for t in m.st.timers:
+                if t.label == label[5:]:
+                    return ('fire', t.created_by, 'timer', True)
+            return ('fire', None, 'timer', True)
+        if label.startswith('deliver '):
+            return ('deliver', None, 'deliver', True)
+        return ('other', None, 'all', True)
+    def independent(self, m, a, b):
+        """Conservative: True only when executing a and b in either order provably yields the same state."""
+        if a == b:
+            return False
+        ka, kb = self._classify(m, a), self._classify(m, b)
+        if 'other' in (ka[0], kb[0]) or 'deliver' in (ka[0], kb[0]):
+            return False
+        for x, y in ((ka, kb), (kb, ka)):
+            if x[0] == 'poll':
+                if y[0] == 'poll':
+                    return False
+                # a poll depends on environment steps that complete / wake its own task
+                return y[1] is not None and y[1] != x[1] and y[0] in ('lin', 'fire')
+        # two environment steps
+        if ka[0] == 'fire' or kb[0] == 'fire':
+            return True
+        if ka[2] != kb[2]:
+            return True
+        if ka[2] == 'ds':
+            return not (ka[3] or kb[3])
+        return False
 
     def is_terminal(self, m):
         for mon in self.monitors:
